@@ -15,7 +15,10 @@
       scopes share no map / slice / pointer with the original;
     * `pooled_objects_released_at_most_once`, `scopes_released_exactly_once` — no path of lib/query gives an object
       back to a `sync.Pool` twice (release facts, all pooled objects); `shared_headers_not_written`,
-      `header_write_sites_reviewed` — a view that takes another view's header does not write it.
+      `header_write_sites_reviewed` — a view that takes another view's header does not write it;
+    * `callee_facts_ok`, `no_unguarded_package_state`, `reachable_set_pinned` — the functions CALLED from the worker
+      bodies (call graph of lib/query, lib/value, lib/option resolved with go/types): their accesses through shared
+      objects, the process-wide caches, and the ways out of the analysed code.
 
   What is trusted (named in the evidence): the extractor's step "syntactic class ⇒ actual access
   pattern of the running program" (cross-checked dynamically with the Go race detector by
@@ -191,6 +194,68 @@ def knownUnguarded : List String := [
   "race:cursor.go:Cursor.Count:c.view.RecordSet",
   "race:cursor.go:Cursor.Pointer:c.index"]
 
+/-! ### The callees of the worker bodies (interprocedural facts, `Gen.calleeRegion`)
+
+    Locations are named by type and field.  An access through an object that several goroutines can reach is
+    `guarded` (a lock every conflicting pair shares, or an operation of a synchronisation object) or `unguarded`.
+    The unguarded ones are accepted only at the locations below, and a WRITE only in the pinned functions: a new
+    callee that writes shared state without a lock breaks `callee_facts_ok` / `facts_ok_except_known`. -/
+
+/-- KNOWN FINDING F105 (recorded, not repaired): the flags of the transaction (`SET @@…`, `ADD … TO @@…`, `REMOVE`,
+    `RELOAD CONFIG`, `SET @@WAIT_TIMEOUT` → `Transaction.UpdateWaitTimeout`, the colour palette) are written under
+    `Transaction.flagMutex` / `operationMutex` by a statement inside a user-defined function that parallel workers
+    evaluate, and read without any lock by the evaluation of every other record. -/
+def f105Locations : List String := [
+  "Transaction.RetryDelay", "Transaction.WaitTimeout", "color.Palette.effects", "color.Palette.useEffects",
+  "option.ExportOptions.CountDiacriticalSign", "option.ExportOptions.CountFormatCode",
+  "option.ExportOptions.Delimiter", "option.ExportOptions.EastAsianEncoding", "option.ExportOptions.EncloseAll",
+  "option.ExportOptions.Encoding", "option.ExportOptions.Format", "option.ExportOptions.JsonEscape",
+  "option.ExportOptions.LineBreak", "option.ExportOptions.PrettyPrint", "option.ExportOptions.ScientificNotation",
+  "option.ExportOptions.SingleLine", "option.ExportOptions.StripEndingLineBreak",
+  "option.ExportOptions.WithoutHeader", "option.Flags.AnsiQuotes", "option.Flags.CPU", "option.Flags.DatetimeFormat",
+  "option.Flags.LimitRecursion", "option.Flags.Quiet", "option.Flags.Repository", "option.Flags.Stats",
+  "option.Flags.StrictEqual", "option.Flags.defaultTimeLocation", "option.ImportOptions.Format"]
+
+/-- KNOWN FINDING F79: the cursor status readers (see `knownUnguarded`), here as seen from the callees -/
+def f79Locations : List String := [
+  "Cursor.fetched", "Cursor.index", "Cursor.view"]
+
+/-- Reviewed, not races (the analysis joins all callers of a function):
+    * `rand.Rand.src` / `s64` — `option.random` is built over `option.lockedSource` (a mutex inside); `Float64`,
+      `Int63n`, `Uint64` of `rand.Rand` touch nothing but the source;
+    * `HeaderField.Aliases` in `View.evalColumn` — the only caller that reaches it with a view that shares its header
+      (`evalListFunction` → `View.OrderBy` on the view of `NewViewFromGroupedRecord`) passes the empty alias and the
+      write is under `0 < len(alias)`; `JsonObject`'s view has a copied header (`shared_headers_not_written`);
+    * `Transaction.AffectedRows` — written under `proc.storeResults`, which the processors of user-defined functions
+      (`NewProcessorWithScope`, `NewChildProcessor`) never have;
+    * `BaseError.compositeErrs` — composite errors are appended to error values made in the same call chain. -/
+def reviewedLocations : List String := [
+  "rand.Rand.s64", "rand.Rand.src", "HeaderField.Aliases", "Transaction.AffectedRows", "BaseError.compositeErrs"]
+
+/-- OPEN (reported to the main session, not yet decided): state of the session / transaction / table files changed by
+    a statement that a user-defined function executes while parallel workers evaluate it — `SOURCE` and the loaders
+    (`file.Container.m`, a plain map: confirmed by the race detector, `Container.Add` / `Remove`), `ALTER TABLE … SET`
+    and friends (`FileInfo.*`), `COMMIT` / tables from URLs / STDIN (`Transaction.UrlCache`, `stdinIsLocked`). -/
+def openLocations : List String := [
+  "FileInfo.Delimiter", "FileInfo.DelimiterPositions", "FileInfo.EncloseAll", "FileInfo.Encoding", "FileInfo.Format",
+  "FileInfo.JsonEscape", "FileInfo.LineBreak", "FileInfo.NoHeader", "FileInfo.Path", "FileInfo.PrettyPrint",
+  "FileInfo.SingleLine", "FileInfo.restorePointHeader", "FileInfo.restorePointRecordSet", "Transaction.UrlCache",
+  "Transaction.stdinIsLocked", "file.Container.m"]
+
+/-- the functions that write one of these locations without a lock shared with every other access (pinned) -/
+def pinnedUnguardedWriters : List String := [
+  "BaseError.appendCompositeError", "CreateTable", "FileInfo.SetDelimiter", "FileInfo.SetDelimiterPositions",
+  "FileInfo.SetEncloseAll", "FileInfo.SetEncoding", "FileInfo.SetFormat", "FileInfo.SetJsonEscape",
+  "FileInfo.SetLineBreak", "FileInfo.SetNoHeader", "FileInfo.SetPrettyPrint", "LoadContentsFromFile",
+  "Processor.ExecuteStatement", "Rand", "Reload", "RemoveFlagElement", "Transaction.ClearUrlCache",
+  "Transaction.Commit", "Transaction.LockStdinContext", "Transaction.ReleaseResources", "Transaction.UnlockStdin",
+  "View.CreateRestorePoint", "View.evalColumn", "ViewMap.Dispose", "cacheViewFromFile", "encodeJson",
+  "loadHttpObject", "loadInlineObjectFromFile", "loadView", "option.Flags.SetCPU", "option.Flags.SetDatetimeFormat"]
+
+def calleeAccepted (f : ParFact) : Bool :=
+  (f105Locations.contains f.var || f79Locations.contains f.var || reviewedLocations.contains f.var || openLocations.contains f.var) &&
+  (f.rw == .r || pinnedUnguardedWriters.contains f.fn)
+
 /- The full statement, false on the current tree because of F79 only:
 
      theorem facts_ok : Gen.parFacts.all (fun f => decide (f.cls ≠ .unguarded)) = true                       -/
@@ -204,8 +269,9 @@ set_option maxRecDepth 1000000 in
     makes this obligation fail and is reported by vt/p_c13.py as `race:<file>:<function>:<variable>`.
     (Pre-finding F7 was repaired in /repo, commit bec97d6.) -/
 theorem facts_ok_except_known :
-    Gen.parFacts.all (fun f => decide (f.cls ≠ .unguarded) || knownUnguarded.contains f.site) = true := by
-  decide
+    Gen.parFacts.all (fun f => decide (f.cls ≠ .unguarded) || knownUnguarded.contains f.site ||
+      (f.region == Gen.calleeRegion && calleeAccepted f)) = true := by
+  decide +kernel
 
 set_option maxRecDepth 1000000 in
 /-- the known finding is still there (when it is repaired this breaks, and `knownUnguarded` is to be emptied) -/
@@ -228,7 +294,15 @@ def factsConsistent (byRegion : List (List ParFact)) : Bool :=
 set_option maxRecDepth 1000000 in
 /-- **facts_consistent.**  The generated classification is a per-location policy (what `Discipline`
     needs), checked here on the generated list itself rather than trusted from the extractor's code. -/
-theorem facts_consistent : factsConsistent Gen.parFactsByRegion = true := by decide +kernel
+theorem facts_consistent : factsConsistent Gen.parFactsByRegion.dropLast = true := by decide +kernel
+
+set_option maxRecDepth 1000000 in
+/-- the same for the region of the callees (the last one), in linear form: every location has one lock
+    (`Gen.calleeLocks`, one entry per location), and every guarded plain access of the location names it -/
+theorem callee_locks_consistent :
+    (Gen.parFactsByRegion.getLast?.getD []).all (fun f => f.region == Gen.calleeRegion &&
+      (f.cls != .guarded || f.syncOp || Gen.calleeLocks.contains (f.var, f.elem, f.how))) = true ∧
+    (Gen.calleeLocks.map (fun l => (l.1, l.2.1))).Nodup := by decide +kernel
 
 set_option maxRecDepth 1000000 in
 /-- no write is classified `readOnly`, and every fact names one of the generated regions -/
@@ -329,6 +403,153 @@ def reviewedHeaderWrites : List String := [
 theorem header_write_sites_reviewed :
     Gen.headerWriteFacts.all (fun f => f.localHeader || reviewedHeaderWrites.contains f.site) = true ∧
     Gen.headerWriteFacts.any (fun f => f.site == "headerwrite:View.evalColumn:view.Header:Aliases") = true := by decide
+
+/-! ## 5. The callees of the worker bodies -/
+
+def calleeFacts : List ParFact := Gen.parFacts.filter (fun f => f.region == Gen.calleeRegion)
+
+set_option maxRecDepth 1000000 in
+/-- **callee_facts_ok.**  Every access through a shared object in every function of lib/query, lib/value, lib/option
+    that a worker body reaches (call graph resolved with go/types: static calls, methods, interface methods by the
+    implementing types, function values by signature) is guarded — a lock held by both sides of every conflicting
+    pair, in the function itself, at every call site of it, or handed on by a function that returns holding it; or
+    an operation of a synchronisation object — except at the known / reviewed / open locations above, and a write
+    there only in the pinned functions. -/
+theorem callee_facts_ok :
+    calleeFacts.all (fun f => decide (f.cls ≠ .unguarded) || calleeAccepted f) = true := by decide +kernel
+
+set_option maxRecDepth 1000000 in
+/-- what the repaired findings look like now (non-vacuity of the region and confirmation of the repairs): the
+    field-index caches (F63) and the header aliases of `Header.Copy` (F106) are not written through a shared object
+    any more — no fact at all at `FieldIndexCache.*`, none at `HeaderField.Aliases` outside `View.evalColumn`; the
+    scope pools, the value pools, `SyncMap`, the date-format and time-zone caches are synchronisation objects; the file
+    path cache of the scope is written under `Transaction.viewLoadingMutex`; F105's writer is seen holding `flagMutex`. -/
+theorem callee_facts_nonvacuous :
+    calleeFacts.any (fun f => f.var == "FieldIndexCache.m" || f.var == "FieldIndexCache.exprs") = false ∧
+    calleeFacts.all (fun f => f.var != "HeaderField.Aliases" || f.rw == .r || f.fn == "View.evalColumn") = true ∧
+    calleeFacts.any (fun f => f.var == "ReferenceScope.cachedFilePath" && f.rw == .w && f.cls == .guarded && f.how == "Transaction.viewLoadingMutex") = true ∧
+    calleeFacts.any (fun f => f.fn == "option.Flags.SetStrictEqual" && f.rw == .w && f.how == "Transaction.flagMutex") = true ∧
+    calleeFacts.any (fun f => f.var == "option.Flags.StrictEqual" && f.rw == .r && f.cls == .unguarded) = true ∧
+    calleeFacts.any (fun f => f.var == "nodeScopePool*" && f.syncOp) = true ∧
+    calleeFacts.any (fun f => f.var == "value.DatetimeFormatMap.m*" && f.syncOp) = true ∧
+    calleeFacts.any (fun f => f.fn == "Cursor.Fetch" && f.rw == .w && f.how == "Cursor.mtx") = true := by decide +kernel
+
+/-- **no_unguarded_package_state.**  Every package-level variable of lib/query, lib/value, lib/option that some
+    function changes after initialisation — the process-wide caches and pools a worker can reach: `RegExps`,
+    `value.DatetimeFormats`, `option.Timezones`, `option.random`, the scope / value / key-buffer pools, the goroutine
+    manager — is of a concurrency-safe type (sync.Map, sync.Pool, a struct with its own lock), set under a sync.Once,
+    or written under a lock.  A plain map or slice added as a cache breaks this. -/
+theorem no_unguarded_package_state :
+    Gen.packageLevelState.all (fun s => !s.written || s.guard != "") = true ∧
+    Gen.packageLevelState.any (fun s => s.name == "RegExps" && s.guard == "query.SyncMap") = true ∧
+    Gen.packageLevelState.any (fun s => s.name == "random" && s.written && s.guard == "sync.Once(getRand)") = true ∧
+    Gen.packageLevelState.any (fun s => s.name == "DatetimeFormats" && s.guard != "") = true ∧
+    Gen.packageLevelState.any (fun s => s.name == "nodeScopePool" && s.guard == "sync.Pool") = true := by decide
+
+/-- calls that leave lib/query, lib/value, lib/option for something else than the standard library, and calls that
+    cannot be resolved (reviewed: syntax-tree accessors of lib/parser — immutable nodes, property C14; the text / json /
+    file helpers work on arguments of their own; `doc.Writer`, the encoders and readers are made per call;
+    `file.Container` is the OPEN finding above; interface methods of context / io / error; four function values of the
+    standard library handed to generic helpers) -/
+def reviewedOpaque : List String := [
+  "constant.Get", "doc.NewWriter", "file.Exists", "file.GetTimeoutContext", "file.NewContainer", "file.NewReader",
+  "file.RandomString", "file.VerifPoint", "function value cryptof of type func() hash.Hash",
+  "function value mathf of type func(float64) float64",
+  "function value mathf of type func(float64, float64) float64", "function value stringsf of type func(string) int",
+  "go-text.ByteSize", "go-text.DetectInSpecifiedEncoding", "go-text.Encode", "go-text.ParseEncoding",
+  "go-text.ParseLineBreak", "go-text.RuneByteSize", "go-text.RuneWidth", "go-text.Width",
+  "go-text/color.GeneratePalette", "go-text/csv.NewField", "go-text/csv.NewReader", "go-text/csv.NewWriter",
+  "go-text/fixedlen.NewDelimiter", "go-text/fixedlen.NewField", "go-text/fixedlen.NewMeasure",
+  "go-text/fixedlen.NewReader", "go-text/fixedlen.NewWriter", "go-text/json.NewEncoder", "go-text/jsonl.NewReader",
+  "go-text/ltsv.NewReader", "go-text/ltsv.NewWriter", "go-text/table.NewEncoder", "go-text/table.NewField",
+  "golang.org/x/crypto/ssh/terminal.GetSize", "golang.org/x/text/cases.Title", "interface RecordReader.Read",
+  "interface VirtualTerminal.GetSize", "interface VirtualTerminal.ReloadConfig", "interface VirtualTerminal.Write",
+  "interface context.Context.Done", "interface context.Context.Err", "interface context.Context.Value",
+  "interface error.Error", "interface hash.Hash.Sum", "interface hash.Hash.Write", "interface io.WriteCloser.Write",
+  "interface io.Writer.Write", "interface os.FileInfo.IsDir", "interface parser.Expression.Char",
+  "interface parser.Expression.HasParseInfo", "interface parser.Expression.Line",
+  "interface parser.Expression.SourceFile", "interface parser.QueryExpression.GetBaseExpr",
+  "interface parser.QueryExpression.String", "interface reflect.Type.Name", "json.ConvertRecordValueToJsonStructure",
+  "json.ConvertTableValueToJsonStructure", "json.ConvertToValue", "json.Extract", "json.LoadArray", "json.LoadTable",
+  "json.LoadValue", "json.ParsePathes", "json.ParseValueToStructure", "methods of doc.Writer",
+  "methods of excmd.ArgsSplitter", "methods of excmd.ArgumentScanner", "methods of file.Container",
+  "methods of file.Handler", "methods of file.Reader", "methods of go-text.Encoding", "methods of go-text.LineBreak",
+  "methods of go-text/color.Palette", "methods of go-text/csv.Reader", "methods of go-text/csv.Writer",
+  "methods of go-text/fixedlen.Delimiter", "methods of go-text/fixedlen.DelimiterPositions",
+  "methods of go-text/fixedlen.Measure", "methods of go-text/fixedlen.Reader", "methods of go-text/fixedlen.Writer",
+  "methods of go-text/json.Array", "methods of go-text/json.Encoder", "methods of go-text/json.Object",
+  "methods of go-text/jsonl.Reader", "methods of go-text/ltsv.Header", "methods of go-text/ltsv.Writer",
+  "methods of go-text/table.Encoder", "methods of golang.org/x/text/cases.Caser", "methods of json.QueryMap",
+  "methods of syntax.Description", "methods of syntax.Grammar", "methods of syntax.Name", "methods of syntax.Store",
+  "methods of ternary.Value", "methods of the syntax-tree nodes of lib/parser", "mitchellh/go-homedir.Dir",
+  "parser.NewBaseExpr", "parser.NewIntegerValue", "parser.NewNullValue", "parser.NewStringValue", "parser.Parse",
+  "parser.TokenLiteral", "syntax.NewStore", "ternary.All", "ternary.And", "ternary.Any", "ternary.ConvertFromBool",
+  "ternary.Equal", "ternary.Not", "ternary.Or"]
+
+def reviewedStdlib : List String := [
+  "bufio", "bytes", "context", "crypto/hmac", "encoding/base64", "encoding/hex", "encoding/json", "errors", "fmt",
+  "io", "math", "math/rand", "net/http", "net/url", "os", "os/exec", "path/filepath", "reflect", "regexp", "runtime",
+  "sort", "strconv", "strings", "sync", "sync/atomic", "time", "unicode", "unicode/utf8"]
+
+/-- every function that writes through a shared object at all, guarded or not (pinned) -/
+def pinnedSharedWriters : List String := [
+  "AddColumns", "BaseError.appendCompositeError", "CreateTable", "Cursor.Close", "Cursor.Fetch", "Cursor.Open",
+  "FileInfo.SetDelimiter", "FileInfo.SetDelimiterPositions", "FileInfo.SetEncloseAll", "FileInfo.SetEncoding",
+  "FileInfo.SetFormat", "FileInfo.SetJsonEscape", "FileInfo.SetLineBreak", "FileInfo.SetNoHeader",
+  "FileInfo.SetPrettyPrint", "GetBlockScope", "GetComparisonKeysBuf", "GetGoroutineManager", "GetNodeScope",
+  "GoroutineManager.AssignRoutineNumber", "GoroutineManager.Release", "GoroutineTaskManager.Done",
+  "GoroutineTaskManager.SetError", "LoadContentsFromFile", "Processor.ExecuteStatement", "PutBlockScope",
+  "PutComparisonkeysBuf", "PutNodeScope", "Rand", "Record.Merge", "ReferenceScope.StoreFilePath", "Reload",
+  "RemoveFlagElement", "StdinLocker.RUnlock", "StdinLocker.Unlock", "SyncMap.Keys", "SyncMap.Len", "SyncMap.Range",
+  "SyncMap.delete", "SyncMap.exists", "SyncMap.load", "SyncMap.store", "Transaction.ClearUrlCache",
+  "Transaction.Commit", "Transaction.LockStdinContext", "Transaction.ReleaseResources", "Transaction.UnlockStdin",
+  "Transaction.UpdateWaitTimeout", "Transaction.UseColor", "UncommittedViews.Clean",
+  "UncommittedViews.SetForCreatedView", "UncommittedViews.SetForUpdatedView", "UncommittedViews.Unset",
+  "View.CreateRestorePoint", "View.evalColumn", "ViewMap.Dispose", "cacheViewFromFile", "encodeJson",
+  "loadHttpObject", "loadInlineObjectFromFile", "loadView", "option.Environment.Merge",
+  "option.Flags.SetAllowUnevenFields", "option.Flags.SetAnsiQuotes", "option.Flags.SetCPU", "option.Flags.SetColor",
+  "option.Flags.SetCountDiacriticalSign", "option.Flags.SetCountFormatCode", "option.Flags.SetDatetimeFormat",
+  "option.Flags.SetDelimiter", "option.Flags.SetDelimiterPositions", "option.Flags.SetEastAsianEncoding",
+  "option.Flags.SetEncloseAll", "option.Flags.SetEncoding", "option.Flags.SetFormat", "option.Flags.SetImportFormat",
+  "option.Flags.SetJsonEscape", "option.Flags.SetJsonQuery", "option.Flags.SetLimitRecursion",
+  "option.Flags.SetLineBreak", "option.Flags.SetLocation", "option.Flags.SetNoHeader", "option.Flags.SetPrettyPrint",
+  "option.Flags.SetQuiet", "option.Flags.SetRepository", "option.Flags.SetScientificNotation",
+  "option.Flags.SetStats", "option.Flags.SetStrictEqual", "option.Flags.SetStripEndingLineBreak",
+  "option.Flags.SetWaitTimeout", "option.Flags.SetWithoutHeader", "option.Flags.SetWithoutNull",
+  "option.Flags.SetWriteDelimiter", "option.Flags.SetWriteDelimiterPositions", "option.Flags.SetWriteEncoding",
+  "option.GetRand", "option.TimezoneMap.load", "option.TimezoneMap.store", "selectSetForRecursion",
+  "value.DatetimeFormatMap.load", "value.DatetimeFormatMap.store", "value.Discard", "value.getDatetime",
+  "value.getFloat", "value.getInteger", "value.getString"]
+
+/-- writers of shared state that worker bodies reach WITHOUT going through `Evaluate` (key buffers, pooled values and
+    records, the date-format cache) -/
+def pinnedWritersOutsideCore : List String := [
+  "GetComparisonKeysBuf", "PutComparisonkeysBuf", "Record.Merge", "value.DatetimeFormatMap.load", "value.DatetimeFormatMap.store",
+  "value.Discard", "value.getDatetime", "value.getFloat", "value.getInteger", "value.getString"]
+
+set_option maxRecDepth 1000000 in
+/-- **reachable_set_pinned.**  The set of functions the worker bodies reach (`Gen.reachableCore` through `Evaluate`,
+    `Gen.closureReach` per body) leaves the analysed packages exactly through the reviewed calls; the functions among
+    them that write shared state are exactly the pinned ones — a new callee that writes through a shared object, with
+    or without a lock, or a new way out of the analysed code, breaks this obligation and is reviewed. -/
+theorem reachable_set_pinned :
+    (Gen.opaqueCalls == reviewedOpaque) = true ∧
+    (Gen.stdlibPackages == reviewedStdlib) = true ∧
+    (Gen.sharedStateWriters == pinnedSharedWriters) = true ∧
+    (Gen.writersOutsideCore == pinnedWritersOutsideCore) = true ∧
+    Gen.closureReach.any (fun c => c.body == "View.filter (worker closure)" && c.reachesCore) = true ∧
+    Gen.closureReach.any (fun c => c.body == "evaluateSequentialRoutine" && c.reachesCore) = true ∧
+    Gen.coreWitnesses.all (fun w => Gen.reachableCore[w.1]? == some w.2) = true ∧
+    (Gen.coreWitnesses.map (·.2) == ["FetchCursor", "JsonObject", "Processor.ExecuteStatement", "Select", "SetFlag",
+      "UserDefinedFunction.Execute", "evalFunction", "option.Flags.SetDatetimeFormat", "selectQuery", "value.Compare"]) = true ∧
+    decide (900 ≤ Gen.reachableCore.length) = true := by decide +kernel
+
+/-- **outside_goroutines_assign_nothing_captured.**  The goroutines started outside lib/query (the signal handler of the
+    command line front end, the actions, the terminal) hand their results over through channels: no `go func() {…}()`
+    literal there assigns a variable of the function around it (such a variable would be written by the goroutine and
+    read by its parent with nothing ordering the two; F93, repaired in 702d22f, was of this shape).  Reported as
+    `gowrite:<file>:<function>:<variable>`. -/
+theorem outside_goroutines_assign_nothing_captured : Gen.outsideGoWrites = [] := by decide
 
 /-- Why the discipline is needed (a statement about the MODEL, independent of the tree): a write
     under a lock and a read of the same location without it, from two workers, is a data race. -/
